@@ -101,6 +101,10 @@ def neg(x):
     return ("not", x)
 
 
+READ_ONLY_METHODS = {"len", "is_empty", "iter", "first", "last", "get", "contains", "as_slice", "to_vec", "clone", "as_ref", "deref", "binary_search", "starts_with", "ends_with",
+                     "concat", "join", "eq", "ne", "cmp", "partial_cmp", "fmt", "to_string", "to_owned", "windows", "chunks", "split_first", "split_last", "position"}
+
+
 class Evaluator:
     def __init__(self, F, call_hook=None, max_paths=400, inline=None, ints=False):
         self.F = F
@@ -176,6 +180,17 @@ class Evaluator:
             if v[0] == "lit" and isinstance(v[1], int) and not isinstance(v[1], bool) and (lo is None or isinstance(lo.get("v"), int)) and (hi is None or isinstance(hi.get("v"), int)):
                 ok = (lo is None or lo["v"] <= v[1]) and (hi is None or (v[1] <= hi["v"] if p.get("end") == "Included" else v[1] < hi["v"]))
                 return ok
+            return None
+        if k == "Slice":
+            seq = self.as_seq(v)
+            if seq is not None and not p.get("rest_bound"):
+                before, after = p.get("ps", []), p.get("after", [])
+                if (len(seq) != len(before)) if not p.get("rest") else (len(seq) < len(before) + len(after)):
+                    return False
+                res = [self.match(q, x, env) for q, x in zip(before, seq)] + [self.match(q, x, env) for q, x in zip(after, seq[len(seq) - len(after):])]
+                if any(r is False for r in res):
+                    return False
+                return True if all(r is True for r in res) else None
             return None
         if k == "Tuple":
             if v[0] == "tuple" and len(v[1]) == len(p["ps"]):
@@ -733,9 +748,34 @@ class Evaluator:
                         yield s2, v[1][i[1]]
                     elif i[0] == "struct" and str(i[1] or "").endswith("RangeFull"):
                         yield s2, v          # `array[..]`: the whole array as a slice
+                    elif i[0] in ("range", "rangefrom", "rangeto") and all(b[0] == "lit" and isinstance(b[1], int) and not isinstance(b[1], bool) for b in i[1:3] if isinstance(b, tuple)):
+                        lo = i[1][1] if i[0] in ("range", "rangefrom") else 0
+                        hi = (i[2][1] + (1 if i[3] else 0)) if i[0] == "range" else (i[1][1] + (1 if i[2] else 0)) if i[0] == "rangeto" else len(v[1])
+                        if 0 <= lo <= hi <= len(v[1]):
+                            yield s2, ("array", list(v[1][lo:hi]))
+                        else:
+                            yield s2, ("index", v)
                     else:
                         yield s2, ("index", v)
                 continue
+            if self.ints and getattr(self, "vecs", False) and v[0] == "lit" and isinstance(v[1], str) and "b" in e:
+                raw = v[1].encode("utf-8")
+                done = False
+                for s2, i in self.ev(e["b"], s):
+                    done = True
+                    if i[0] in ("range", "rangefrom", "rangeto") and all(b[0] == "lit" and isinstance(b[1], int) and not isinstance(b[1], bool) for b in i[1:3] if isinstance(b, tuple)):
+                        lo = i[1][1] if i[0] in ("range", "rangefrom") else 0
+                        hi = (i[2][1] + (1 if i[3] else 0)) if i[0] == "range" else (i[1][1] + (1 if i[2] else 0)) if i[0] == "rangeto" else len(raw)
+                        try:
+                            if not 0 <= lo <= hi <= len(raw):
+                                raise ValueError
+                            yield s2, ("lit", raw[lo:hi].decode("utf-8"))
+                        except ValueError:
+                            yield s2, ("unknown", "panic: text sliced outside a character boundary")
+                    else:
+                        yield s2, ("index", v)
+                if done:
+                    continue
             yield s, ("index", v)
 
     def ev_Closure(self, e, st):
@@ -762,6 +802,12 @@ class Evaluator:
                     for s2, hi in self.ev(f["end"], s1):
                         yield s2, ("range", lo, hi, "Inclusive" in path)
                 return
+        if self.ints and getattr(self, "vecs", False) and re.search(r"ops::(range::)?(RangeFrom|RangeTo|RangeToInclusive)$", path):
+            f = {x["name"]: x["e"] for x in e.get("fields", [])}
+            k = "start" if "start" in f else "end"
+            for s1, b in self.ev(f[k], st):
+                yield s1, (("rangefrom", b) if k == "start" else ("rangeto", b, path.endswith("Inclusive")))
+            return
         yield st, ("struct", e.get("path"))
 
     def builtin(self, callee, method, args, s):
@@ -778,12 +824,41 @@ class Evaluator:
         if method == "unwrap_or" and a0 is not None and a0[0] == "v" and a0[1] in ("None", "Err") and len(args) == 2:
             yield s, args[1]
             return
+        if method in ("checked_add", "checked_sub", "checked_mul") and len(args) == 2 and all(x[0] == "lit" and isinstance(x[1], int) and not isinstance(x[1], bool) for x in args):
+            r = {"checked_add": args[0][1] + args[1][1], "checked_sub": args[0][1] - args[1][1], "checked_mul": args[0][1] * args[1][1]}[method]
+            m2 = re.search(r"Option<([iu])(\d+|size)>", getattr(self, "cur_ty", "") or "")
+            if m2:
+                bits = 64 if m2.group(2) == "size" else int(m2.group(2))
+                lo, hi = (0, 2 ** bits - 1) if m2.group(1) == "u" else (-2 ** (bits - 1), 2 ** (bits - 1) - 1)
+                yield s, (some(("lit", r)) if lo <= r <= hi else none)
+                return
         # operators written as method calls on integers: `a.rem(60)`, `a.div(60)` (std::ops traits in scope)
         if method in ("rem", "div", "add", "sub", "mul") and len(args) == 2 and re.search(r"core::ops::arith::(Rem|Div|Add|Sub|Mul)", callee or "") and \
                 all(x[0] == "lit" and isinstance(x[1], int) and not isinstance(x[1], bool) for x in args):
             r = self.binop({"rem": "%", "div": "/", "add": "+", "sub": "-", "mul": "*"}[method], args[0], args[1])
             if r[0] == "lit":
                 yield s, r
+                return
+        # concrete text (opt-in with `ev.vecs`): the str methods the string built-ins use, on literal receivers
+        if getattr(self, "vecs", False) and a0 is not None and a0[0] == "lit" and isinstance(a0[1], str) and re.search(r"\bstr\b|String", c):
+            t = a0[1]
+            a1 = args[1] if len(args) == 2 else None
+            txt1 = a1[1] if a1 is not None and a1[0] == "lit" and isinstance(a1[1], str) else None
+            if method == "chars" and len(args) == 1:
+                yield s, ("iterv", [("lit", ch) for ch in t])
+                return
+            if method == "len" and len(args) == 1:
+                yield s, ("lit", len(t.encode("utf-8")))
+                return
+            if method == "is_empty" and len(args) == 1:
+                yield s, mk_bool(not t)
+                return
+            if method in ("starts_with", "ends_with", "contains") and txt1 is not None:
+                yield s, mk_bool({"starts_with": t.startswith, "ends_with": t.endswith, "contains": t.__contains__}[method](txt1))
+                return
+            if method in ("find", "rfind") and txt1 is not None:
+                i = t.find(txt1) if method == "find" else t.rfind(txt1)
+                yield s, (some(("lit", len(t[:i].encode("utf-8")))) if i >= 0 else none)
                 return
         # growable vectors as concrete sequences (opt-in: `ev.vecs = True`): Vec::new() / with_capacity(n) / push on a local
         if getattr(self, "vecs", False):
@@ -793,6 +868,17 @@ class Evaluator:
             if method == "push" and seq0 is not None and len(args) == 2 and getattr(self, "recv_local", None) and re.search(r"\bvec::Vec\b", c):
                 s2 = s.fork()
                 s2.env[self.recv_local] = ("array", list(seq0) + [args[1]])
+                yield s2, ("unit",)
+                return
+            if method in ("extend", "extend_from_slice", "append") and seq0 is not None and len(args) == 2 and getattr(self, "recv_local", None) and re.search(r"\bvec::Vec\b|Extend", c):
+                more = self.as_seq(args[1])
+                s2 = s.fork()
+                s2.env[self.recv_local] = ("array", list(seq0) + list(more)) if more is not None else ("unknown", "extended by an unknown sequence")
+                yield s2, ("unit",)
+                return
+            if method in ("reverse", "clear") and seq0 is not None and len(args) == 1 and getattr(self, "recv_local", None) and re.search(r"\bvec::Vec\b|slice", c):
+                s2 = s.fork()
+                s2.env[self.recv_local] = ("array", list(reversed(seq0)) if method == "reverse" else [])
                 yield s2, ("unit",)
                 return
             if method in ("len", "is_empty") and seq0 is not None and len(args) == 1:
@@ -853,6 +939,9 @@ class Evaluator:
             yield s, ("iterv", list(a0[1][:n]) + [a0[2]] * max(0, n - len(a0[1])))
         elif a0 is not None and a0[0] == "padseq" and method == "skip" and len(args) == 2 and args[1][0] == "lit" and isinstance(args[1][1], int) and args[1][1] >= 0:
             yield s, ("padseq", list(a0[1][args[1][1]:]), a0[2])
+        elif seq0 is not None and method == "collect" and len(args) == 1 and getattr(self, "vecs", False) and "String" in (getattr(self, "cur_ty", "") or "") and \
+                all(x[0] == "lit" and isinstance(x[1], str) for x in seq0):
+            yield s, ("lit", "".join(x[1] for x in seq0))          # characters (or pieces) collected into a String
         elif seq0 is not None and method == "collect" and len(args) == 1:
             yield s, ("array", list(seq0))
         elif seq0 is not None and method in ("len", "count") and len(args) == 1:
@@ -953,6 +1042,28 @@ class Evaluator:
         yield st, ("array",)
 
     def ev_Call(self, e, st):
+        """(vecs mode) a local handed to any function as `&mut local` is unknown afterwards: writes through a reference argument are not modelled"""
+        muts = []
+        if getattr(self, "vecs", False):
+            for a in e.get("args", []):
+                while isinstance(a, dict) and a.get("k") in ("DropTemps", "Paren"):
+                    a = a.get("e")
+                if isinstance(a, dict) and a.get("k") == "AddrOf" and a.get("mut"):
+                    t = a.get("e")
+                    while isinstance(t, dict) and t.get("k") in ("DropTemps", "Paren"):
+                        t = t.get("e")
+                    if isinstance(t, dict) and t.get("k") == "Path" and t.get("res") == "local":
+                        muts.append(t["name"])
+        if not muts:
+            yield from self._ev_call(e, st)
+            return
+        for s, v in self._ev_call(e, st):
+            s2 = s.fork()
+            for m in muts:
+                s2.env[m] = ("unknown", "written through a `&mut` argument")
+            yield s2, v
+
+    def _ev_call(self, e, st):
         callee = e.get("callee")
         if callee is None and isinstance(e.get("f"), dict):
             f = e["f"]
@@ -1073,6 +1184,9 @@ class Evaluator:
                     if rs:
                         yield from rs
                         continue
+                if getattr(self, "vecs", False) and self.recv_local and isinstance(recv, tuple) and recv[0] in ("array", "iterv") and method not in READ_ONLY_METHODS:
+                    s = s.fork()
+                    s.env[self.recv_local] = ("unknown", "method %s of a tracked vector is not modelled" % method)
                 yield s, ("call", callee, [recv] + args)
 
     def inline_call(self, callee, args, s):
